@@ -1,5 +1,6 @@
-/- Driver for C13 (vector search).  Distances are EXACT squared L2 distances over ℚ (the order of
-   distances and of squared distances is the same); f32 values travel as 8 hex digits each.
+/- Driver for C13 (vector search).  Distances are EXACT squared L2 distances over ℚ ∪ {NaN} (the order
+   of distances and of squared distances is the same; a NaN component makes the distance NaN; ±inf
+   components are refused: `nonfinite`); f32 values travel as 8 hex digits each.
    <docs> = none | empty | id:hex;id:hex;…        (index order)
    requests:
      search <docs> <q> <k>                          → ok <ids> | panic | nonfinite        VecIndex::search
@@ -32,10 +33,16 @@ def parseDocs (s : String) : Option (Option (List (Doc Nat))) :=
   else if s == "empty" then some (some [])
   else ((s.splitOn ";").mapM parseDoc).map some
 
-def toRatDoc (d : Doc Nat) : Option (Doc Rat) :=
-  (d.embedding.mapM f32ToRat).map fun e => { frameId := d.frameId, embedding := e }
+/-- finite → some (some r); NaN → some none; ±inf → none -/
+def f32Class (bits : Nat) : Option (Option Rat) :=
+  match f32ToRat bits with
+  | some r => some (some r)
+  | none => if bits % 2 ^ 23 ≠ 0 then some none else none
 
-def showIds (hs : List (Hit Rat)) : String := "ok " ++ showNats (hs.map (·.frameId))
+def toRatDoc (d : Doc Nat) : Option (Doc (Option Rat)) :=
+  (d.embedding.mapM f32Class).map fun e => { frameId := d.frameId, embedding := e }
+
+def showIds (hs : List (Hit (Option Rat))) : String := "ok " ++ showNats (hs.map (·.frameId))
 
 def showBits (e : List Nat) : String :=
   if e.isEmpty then "-" else
@@ -45,8 +52,8 @@ def showDocs (ds : List (Doc Nat)) : String :=
   if ds.isEmpty then "empty" else ";".intercalate (ds.map fun d => s!"{d.frameId}:{showBits d.embedding}")
 
 def runSearch (docs : List (Doc Nat)) (qb : List Nat)
-    (f : List (Doc Rat) → List Rat → String) : String :=
-  match docs.mapM toRatDoc, qb.mapM f32ToRat with
+    (f : List (Doc (Option Rat)) → List (Option Rat) → String) : String :=
+  match docs.mapM toRatDoc, qb.mapM f32Class with
   | some ds, some q =>
     if !q.isEmpty ∧ ds.any (fun d => d.embedding.length ≠ q.length) then "panic" else f ds q
   | _, _ => "nonfinite"
@@ -55,19 +62,19 @@ def step (_ : Unit) (ws : List String) : Unit × String :=
   match ws with
   | ["search", sd, sq, sk] => match parseDocs sd, parseBits sq, sk.toNat? with
     | some (some docs), some qb, some k =>
-      ((), runSearch docs qb fun ds q => showIds (search sqDist ratCmp ds q k))
+      ((), runSearch docs qb fun ds q => showIds (search sqDistNan optRatCmp optIsNan ds q k))
     | _, _, _ => ((), "bad-op")
   | ["searchvec", en, sdim, sd, sq, sk] =>
     match parseDocs sd, parseBits sq, sk.toNat?, (if sdim == "-" then some none else sdim.toNat?.map some) with
     | some odocs, some qb, some k, some dim =>
       -- the dimension logic needs no float values: run it on bit patterns first
       let stBits : VecState Nat := { vecEnabled := en == "1", effectiveDim := dim, index := odocs }
-      match searchVec (fun _ _ => (0 : Nat)) (fun _ _ => some .eq) stBits qb k with
+      match searchVec (fun _ _ => (0 : Nat)) (fun _ _ => some .eq) (fun _ => false) stBits qb k with
       | .error .vecNotEnabled => ((), "err notenabled")
       | .error (.dimMismatch e a) => ((), s!"err dim {e} {a}")
       | .ok _ =>
         ((), runSearch (odocs.getD []) qb fun ds q =>
-          match searchVec sqDist ratCmp { vecEnabled := en == "1", effectiveDim := dim, index := some ds } q k with
+          match searchVec sqDistNan optRatCmp optIsNan { vecEnabled := en == "1", effectiveDim := dim, index := some ds } q k with
           | .ok hs => showIds hs
           | .error .vecNotEnabled => "err notenabled"
           | .error (.dimMismatch e a) => s!"err dim {e} {a}")
@@ -75,8 +82,10 @@ def step (_ : Unit) (ws : List String) : Unit × String :=
   | ["scores", sd, sq] => match parseDocs sd, parseBits sq with
     | some (some docs), some qb =>
       ((), runSearch docs qb fun ds q =>
-        let hs := score sqDist ds q
-        if hs.isEmpty then "-" else ",".intercalate (hs.map fun h => s!"{h.frameId}:{h.distance.num}/{h.distance.den}"))
+        let hs := score sqDistNan ds q
+        if hs.isEmpty then "-" else ",".intercalate (hs.map fun h => match h.distance with
+          | some r => s!"{h.frameId}:{r.num}/{r.den}"
+          | none => s!"{h.frameId}:nan"))
     | _, _ => ((), "bad-op")
   | ["encode", sd] => match parseDocs sd with
     | some (some docs) => ((), toHexW (encodeDocs docs))
